@@ -12,6 +12,7 @@ CFG = dict(
     rule="seeded sequences of create_node/create_edge (directed, undirected, self-loops, parallel)/delete_edge/delete_node/update_node/update_edge on 1-8 nodes incl. missing ids, observed through the public reads after every operation; 2-8 threads behind a barrier on a shared engine (hub creations, creations + deletions/updates of overlapping setup edges, mixes with node deletions), observed at quiescence; delete_node above the rayon threshold",
     trusted_base=COMMON_TB + [
         "modelled, not verified: the store as four association lists (node keys, out lists, in lists, edge records); one store.get/put/delete = one atomic step (metadata_slab takes the shard lock per call); with the per-key adjacency lock (commit c34d16e7) add_edge_to_list/remove_edge_from_list are single atomic steps; HashSet iteration order in delete_node is fixed to list order (the final state does not depend on it); property indexes, labels, constraints, timestamps and the legacy e* list format are outside the model",
+        "guarded hook (commit 323c24cd, cfg(neumann_verif)): tensor_store::verif_hook::point(\"graph.adjacency_rmw\") between the read and the write-back of add_edge_to_list/remove_edge_from_list; the harness holds thread 1 there while thread 2 runs (deterministic schedules of C05_lost_update_refuted)",
         "the hardware memory model below parking_lot locks and the rayon scheduler are not modelled; the stress runs exercise them",
     ],
     assumptions=[
